@@ -414,7 +414,8 @@ META["C09"] = dict(
     gates={
         "mon.steps_compared": g(1500, 20000),
         "mon.steps_compared_with_pristine_process": g(1500, 20000),
-        "st.failing_steps": g(400, 5000), "st.history.help_then_readers.default_config_file": g(20, 200),
+        "st.failing_steps": g(400, 5000), "st.history.print_config_with_exit0_option_then_parses": g(8, 80), "st.history.union_of_class_and_factory": g(6, 60),
+        "st.history.help_then_readers.default_config_file": g(20, 200),
         "st.op.parse_args": g(300, 3000), "st.op.parse_args-fail": g(200, 2000), "st.op.print_config": g(30, 300), "st.op.print_config-fail": g(20, 200),
         "st.op.help": g(30, 300), "st.op.parse_object": g(50, 500), "st.op.parse_string": g(30, 300), "st.op.parse_env": g(30, 300),
         "st.op.get_defaults": g(30, 300), "st.op.dump": g(30, 300), "st.op.validate": g(20, 200), "st.op.instantiate": g(20, 200),
